@@ -1,7 +1,19 @@
 (* Names/CivilSweep.v — the one expensive computation of the Names development, kept in its own file:
    the complete check of [day_ok] on all 106,752 day numbers 0 .. 106751 (1970-01-01 .. 2262-04-11),
-   i.e. on every day an instant 0 <= t < 2^63 ns can fall on. Evaluated by the kernel's vm (once, at Qed). *)
+   i.e. on every day an instant 0 <= t < 2^63 ns can fall on; four power-of-two blocks
+   (65536 + 32768 + 8192 + 256). Each is evaluated by the kernel's vm, once, at Qed. *)
 From LS Require Import Base.Bytes Names.Civil.
+Open Scope Z_scope.
 
+Lemma sweep_block1 : sweep 16 0 = true.
+Proof. vm_cast_no_check (eq_refl true). Qed.
+Lemma sweep_block2 : sweep 15 65536 = true.
+Proof. vm_cast_no_check (eq_refl true). Qed.
+Lemma sweep_block3 : sweep 13 98304 = true.
+Proof. vm_cast_no_check (eq_refl true). Qed.
+Lemma sweep_block4 : sweep 8 106496 = true.
+Proof. vm_cast_no_check (eq_refl true). Qed.
+
+(* the same, as the single boolean of Civil.v *)
 Lemma sweep_all_true : sweep_all = true.
 Proof. vm_cast_no_check (eq_refl true). Qed.
